@@ -34,7 +34,7 @@ def classified : List (String × Bool) := [
   ("verit_comp_simplify", false),
   ("verit_cong", false),
   ("verit_conj_pts", false),
-  ("verit_connective_def", false),
+  ("verit_connective_def", true),
   ("verit_contraction", true),
   ("verit_disj_pts", false),
   ("verit_distinct_elim", false),
@@ -67,7 +67,7 @@ def classified : List (String × Bool) := [
   ("verit_ite_neg2", true),
   ("verit_ite_pos1", true),
   ("verit_ite_pos2", true),
-  ("verit_ite_simplify", false),
+  ("verit_ite_simplify", true),
   ("verit_la_disequality", true),
   ("verit_la_generic", true),
   ("verit_la_rw_eq", true),
@@ -99,7 +99,7 @@ def classified : List (String × Bool) := [
   ("verit_round_lia", false),
   ("verit_sko_ex", false),
   ("verit_sko_forall", false),
-  ("verit_subproof", false),
+  ("verit_subproof", true),
   ("verit_sum_simplify", false),
   ("verit_th_resolution", true),
   ("verit_trans", true),
